@@ -161,8 +161,15 @@ Proof. intros H1 H2. unfold spec_TSneParams, nonneg_bit. refl_tac. Qed.
 
 (** ** FastICA *)
 Lemma act_FastIca p : wf (FastIcaValidParams_tol p) ->
-  g_act (spec_FastIcaParams fm p) = true <-> 0 <= val (FastIcaValidParams_tol p).
-Proof. intros H. unfold spec_FastIcaParams. refl_tac. Qed.
+  g_act (spec_FastIcaParams fm p) = true <->
+  0 <= val (FastIcaValidParams_tol p) /\ logcosh_ok (FastIcaValidParams_gfunc p) = true.
+Proof.
+  intros H. unfold spec_FastIcaParams; cbn [g_act].
+  destruct (logcosh_ok (FastIcaValidParams_gfunc p)); rewrite ?andb_true_r, ?andb_false_r;
+    [| split; [discriminate | intros [_ X]; discriminate X]].
+  toR. destruct (Rle_bool_spec 0 (val (FastIcaValidParams_tol p))); split; intros; try tauto; try discriminate.
+  exfalso; lra.
+Qed.
 
 (** ** hierarchical clustering *)
 Lemma act_Hierarchical p :
@@ -253,12 +260,6 @@ Proof.
   toR. destruct (Rle_bool_spec 0 (val (FastIcaValidParams_tol p))); split; intros; try tauto; try discriminate.
   exfalso; lra.
 Qed.
-Lemma known_FastIca p :
-  g_known (spec_FastIcaParams fm p) = 0%N <-> logcosh_ok (FastIcaValidParams_gfunc p) = true.
-Proof.
-  unfold spec_FastIcaParams; cbn [g_known]. destruct (logcosh_ok _); split; intros; try reflexivity; discriminate.
-Qed.
-
 Lemma strict_Hierarchical p :
   match ValidHierarchicalCluster_stopping p with Criterion_Distance x => wf x | _ => True end ->
   g_strict (spec_HierarchicalCluster fm p) = true <->
@@ -526,14 +527,18 @@ Qed.
 Definition d_10 : spec_float := S754_finite false 5629499534213120 (-49).     (* 10.0 *)
 Lemma val_d_10 : val d_10 = 10.
 Proof. unfold val, d_10, SF2R, F2R; simpl; lra. Qed.
-(* F-C04-1: Logcosh(10) - the value of the crate's own test test_logcosh_alpha_err - passes the guard *)
-Lemma refuted_FC041 : exists p,
-  (exists a, FastIcaValidParams_gfunc p = GFunc_Logcosh a /\ wf 53 1024 a /\ 2 < val a)
-  /\ check_ref_FastIcaParams fmt64 p = None.
+(* F-C04-1 (fixed in /repo 6e23381): Logcosh(10) - the value of the crate's own test test_logcosh_alpha_err -
+   passed the guard as it was before the repair, and is rejected by the current one *)
+Definition wit_FC041 : r_FastIcaValidParams :=
+  {| FastIcaValidParams_ncomponents := None; FastIcaValidParams_gfunc := GFunc_Logcosh d_10;
+     FastIcaValidParams_max_iter := 200; FastIcaValidParams_tol := d_1em4; FastIcaValidParams_random_state := None |}.
+Lemma refuted_FC041 :
+  (exists a, FastIcaValidParams_gfunc wit_FC041 = GFunc_Logcosh a /\ wf 53 1024 a /\ 2 < val a)
+  /\ check_ref_FastIcaParams_before_FC041 fmt64 wit_FC041 = None
+  /\ check_ref_FastIcaParams fmt64 wit_FC041 <> None.
 Proof.
-  exists {| FastIcaValidParams_ncomponents := None; FastIcaValidParams_gfunc := GFunc_Logcosh d_10;
-            FastIcaValidParams_max_iter := 200; FastIcaValidParams_tol := d_1em4; FastIcaValidParams_random_state := None |}.
-  split; [| reflexivity]. exists d_10. split; [reflexivity|]. split; [split; reflexivity|]. rewrite val_d_10; lra.
+  split; [| split; [reflexivity | discriminate]].
+  exists d_10. split; [reflexivity|]. split; [split; reflexivity|]. rewrite val_d_10; lra.
 Qed.
 
 (** * Non-vacuity: the documented default parameter set of every builder (binary64; f32 for the count
